@@ -1,3 +1,33 @@
-From MW Require Import Num.
-Theorem placeholder : True. Proof. exact I. Qed.
-Print Assumptions placeholder.
+(*  C18 — Results are independent of the data container type; inputs are never modified.
+   
+    What a model can carry (thin, by design): the facade's dispatch on the container kind.
+    PROVED: lists, C- and Fortran-ordered arrays and DataFrames holding the same matrix are converted to the same
+    internal matrix; a Series is one column when fit receives more than one decision and one row otherwise, and at
+    query time one column exactly when the bandit was trained on a single feature.  In the model every value is
+    immutable, so "inputs are never modified" cannot fail there.
+    ..._partial: numpy / pandas conversion, dtype, memory order and in-place writes are runtime behaviour; they are
+    OBSERVED on every run: the same history through seven container kinds compared with the list run, byte
+    snapshots of every caller object before and after each call, and an aliasing probe of the arm list. *)
+From Coq Require Import List ZArith Bool Arith QArith Qcanon Permutation.
+From MW Require Import Num Assoc AssocFacts Rng Par CF CFInv CFClean CFForget CFSpec Matrix Lin Warm WarmInv Nbr NbrFacts NbrIndep LshFacts Clu Tree CellFacts Mab FacadeCF FacadeArms MoreFacts NumLaws CFAlg Sim Extra QcInst.
+Import ListNotations.
+
+Theorem C18_conversion_independent_of_container_partial :
+  forall (R : Type) (t1 t2 : ctag) (n : nat) (data : list (list R)) (vals : list R),
+  t1 <> TSeries ->
+  t2 <> TSeries ->
+  convert_fit t1 n data vals = convert_fit t2 n data vals /\
+  convert_predict t1 n data vals = convert_predict t2 n data vals.
+Proof. exact @convert_independent_of_container. Qed.
+Print Assumptions C18_conversion_independent_of_container_partial.
+
+Theorem C18_series_disambiguation :
+  forall (R : Type) (n : nat) (vals : list R),
+  ((1 < n)%nat -> convert_fit TSeries n [] vals = convert_fit TList n (map (fun v : R => [v]) vals) []) /\
+  ((n <= 1)%nat -> convert_fit TSeries n [] vals = convert_fit TList n [vals] []) /\
+  convert_predict TSeries 1 [] vals = convert_predict TList 1 (map (fun v : R => [v]) vals) [] /\
+  (n <> 1%nat -> convert_predict TSeries n [] vals = convert_predict TList n [vals] []).
+Proof. exact @series_disambiguation. Qed.
+Print Assumptions C18_series_disambiguation.
+
+
